@@ -186,6 +186,10 @@ class Shapes:
             if last == "transpose":
                 s = self.shape(args[0])
                 return (s[1], s[0])
+            if last == "tr_mul" and "nalgebra" in cid and len(args) == 2:
+                sa, sb = self.shape(args[0]), self.shape(args[1])
+                self.need_eq(sa[0], sb[0], "Aᵀ·B: rows of A and rows of B", t)
+                return (sa[1], sb[1])
             if last in ("zeros_generic", "from_element_generic", "uninit") and len(args) >= 2:
                 return (self.dim(args[0]), self.dim(args[1]))
             if last == "from_element" and len(args) == 3:
